@@ -797,9 +797,13 @@ msafile_check_selex(ESL_BUFFER *bf)
   esl_pos_t n,  toklen;
   int       status;
 
-  /* Anchor at the start of the input, so we can rewind */
+  /* Anchor at the start of the input, so we can rewind. The anchor must
+   * be a stable one: <firstname> points into the first line of the input
+   * and is compared against the first name of every later block, many
+   * esl_buffer_GetLine() calls (and buffer refills) later.
+   */
   start_offset = esl_buffer_GetOffset(bf);
-  if ( (status = esl_buffer_SetAnchor(bf, start_offset)) != eslOK) goto ERROR;
+  if ( (status = esl_buffer_SetStableAnchor(bf, start_offset)) != eslOK) goto ERROR;
 
   while ( (status = esl_buffer_GetLine(bf, &p, &n)) == eslOK)
     {
